@@ -687,6 +687,16 @@ def rule_data_presence_witness(chk, repo, rid):
         vals = c.args[1].elts if len(c.args) > 1 and isinstance(c.args[1], (ast.List, ast.Tuple)) else []
         ok = "state_data" in cols and len(vals) == len(cols) and is_none_const(vals[cols.index("state_data")])
         chk.ob(rid, f"{ci.qual}.store_metadata", ok, "metadata-only rows carry NULL state_data", c, mod, key="witness")
+    # ... and a data row never does: the payload of SQLCache.store's INSERT is self.encode(<bytes>) unconditionally (empty bytes included)
+    _, st_ = ci.find_method("store")
+    for c, t in [(c, t) for c, w, t in sql_executes(st_) if w == "INSERT"]:
+        cols = [x.strip() for x in t[t.index("(") + 1:t.index(")")].split(",")]
+        vals = c.args[1].elts if len(c.args) > 1 and isinstance(c.args[1], (ast.List, ast.Tuple)) else []
+        v = vals[cols.index("state_data")] if "state_data" in cols and len(vals) == len(cols) else None
+        ok = isinstance(v, ast.Call) and call_name(v) == "self.encode"
+        chk.ob(rid, f"{ci.qual}.store", ok, "a data row always carries a payload: state_data = self.encode(bytes)" if ok else
+               f"state_data is `{U(v) if v is not None else None}`: for some values (e.g. empty bytes) the row is indistinguishable from a metadata-only row and is never served",
+               c, mod, key="witness-data")
     _, g = ci.find_method("get")
     gcfg = CFG(g)
     for r in [r for r in returns_of(g) if not is_none_const(r.value)]:
